@@ -26,22 +26,32 @@ import (
 
 var verifStubs_VerifC16Transition = verifStubsFS
 
-// vc16LinkHeld asserts the property for one link: target of a link whose
-// holding directory is `level` directories below the synchronization root.
-func vc16LinkHeld(level int, target string) {
+// vc16Classes says which of the rejected classes named by the property a
+// target belongs to.
+func vc16Classes(target string) (empty, long, absolute, colon, backslash bool) {
 	n := len(target)
-	vAssert(n > 0, "no link with an empty target is created")
 	if n == 0 {
-		return
+		return true, false, false, false, false
 	}
-	vAssert(n <= 247, "no link with an over-long target is created")
-	vAssert(target[0] != '/', "no link with an absolute target is created")
+	long = n > 247
+	absolute = target[0] == '/'
 	for i := 0; i < n; i++ {
-		vAssert(target[i] != ':', "no link with a colon-containing target is created")
-		vAssert(target[i] != '\\', "no link with a backslash-containing target is created")
+		if target[i] == ':' {
+			colon = true
+		}
+		if target[i] == '\\' {
+			backslash = true
+		}
 	}
-	// Own lexical resolution relative to the directory holding the link:
-	// consecutive and trailing slashes collapse, "." stays, ".." goes up.
+	return
+}
+
+// vc16Escapes is the own lexical POSIX resolution of a target relative to the
+// directory holding the link, which lies `level` directories below the
+// synchronization root: consecutive and trailing slashes collapse, "." stays,
+// ".." goes up, anything else goes down.  True if the walk leaves the root.
+func vc16Escapes(level int, target string) bool {
+	n := len(target)
 	start := 0
 	for i := 0; i <= n; i++ {
 		if i < n && target[i] != '/' {
@@ -53,16 +63,31 @@ func vc16LinkHeld(level int, target string) {
 		case clen == 1 && target[start] == '.':
 		case clen == 2 && target[start] == '.' && target[start+1] == '.':
 			level--
-			vCover("created-link-with-dotdot")
-			vAssert(level >= 0, "a link created by the transition never resolves outside the synchronization root")
+			vCover("dotdot")
 			if level < 0 {
-				return
+				return true
 			}
 		default:
 			level++
 		}
 		start = i + 1
 	}
+	return false
+}
+
+// vc16LinkHeld asserts the property for one link that exists on disk after a
+// transition; its holding directory is `level` directories below the root.
+func vc16LinkHeld(level int, target string) {
+	empty, long, absolute, colon, backslash := vc16Classes(target)
+	vAssert(!empty, "no link with an empty target is created")
+	vAssert(!long, "no link with an over-long target is created")
+	vAssert(!absolute, "no link with an absolute target is created")
+	vAssert(!colon, "no link with a colon-containing target is created")
+	vAssert(!backslash, "no link with a backslash-containing target is created")
+	if empty || absolute {
+		return
+	}
+	vAssert(!vc16Escapes(level, target), "a link created by the transition never resolves outside the synchronization root")
 }
 
 // vc16Walk applies vc16LinkHeld to every link below the directory node n
